@@ -268,7 +268,17 @@ func (m *m1) apply(op C01Op) {
 		i := idx[pick]
 		l := m.regs[op.Type]
 		m.regs[op.Type] = append(append([]*m1Reg{}, l[:i]...), l[i+1:]...)
-		m.obs.Inner = append(m.obs.Inner, c01Inner{fmt.Sprintf("unsub E%02d/f%d", op.Type, op.Fn), 0, 0})
+		// A Once registration that a publish in progress has already claimed is on its way out ("no longer
+		// counted as subscribed afterwards" does not say whether it still is during that publish - HandlerCount
+		// is given the same latitude above): if the function has no other registration, "not found" is as good
+		// an answer as success.
+		hi := 1
+		for _, j := range idx {
+			if r := l[j]; !(r.opts.Once && r.executed) {
+				hi = 0
+			}
+		}
+		m.obs.Inner = append(m.obs.Inner, c01Inner{fmt.Sprintf("unsub E%02d/f%d", op.Type, op.Fn), 0, hi})
 	case "clear":
 		delete(m.regs, op.Type)
 	case "clearall":
